@@ -14,12 +14,11 @@ pub struct DateTime {
 
 impl DateTime {
     pub(crate) fn from_node(node: &Node) -> Result<Option<Self>> {
-        let gps_time_text = node
+        let gps_time_node = node
             .children()
             .find(|n| xml::is_tag(n, "dateTimeValue") && n.attribute("type") == Some("Float"))
-            .invalid_err("Unable to find XML tag 'dateTimeValue' with type 'Float'")?
-            .text();
-        let gps_time = if let Some(text) = gps_time_text {
+            .invalid_err("Unable to find XML tag 'dateTimeValue' with type 'Float'")?;
+        let gps_time = if let Some(text) = xml::text(&gps_time_node) {
             text.parse::<f64>()
                 .invalid_err("Failed to parse inner text of XML tag 'dateTimeValue' as double")?
         } else {
@@ -30,7 +29,7 @@ impl DateTime {
             xml::is_tag(n, "isAtomicClockReferenced") && n.attribute("type") == Some("Integer")
         });
         let atomic_reference = if let Some(node) = atomic_reference_node {
-            node.text().unwrap_or("0").trim() == "1"
+            xml::text(&node).as_deref().unwrap_or("0").trim() == "1"
         } else {
             return Ok(None);
         };
